@@ -752,13 +752,22 @@ func (mc *machine) valuesSQL(sh insertShape, rows [][]cell) string {
 }
 
 // defaultReadsUnlisted: some VALUES row uses the keyword DEFAULT for a column whose expression
-// default reads a column that is not in the statement's column list (region of finding
-// C19-default-keyword-unlisted-column).
+// default reads a column that the VALUES tuple cannot supply at that point: a column that is
+// not in the statement's column list, or one that is listed later and is itself given as the
+// keyword DEFAULT with an expression default (region of finding
+// C19-default-keyword-unlisted-column: the keyword is resolved against the VALUES tuple, not
+// against the destination row).
 func (mc *machine) defaultReadsUnlisted(sh insertShape, rows [][]cell) bool {
-	if sh.list == nil {
-		return false
+	order := sh.list
+	if order == nil {
+		for i := range mc.t.cols {
+			order = append(order, i)
+		}
 	}
-	in := sh.listed(len(mc.t.cols))
+	pos := map[int]int{}
+	for i, c := range order {
+		pos[c] = i
+	}
 	for _, cells := range rows {
 		for c := range cells {
 			d := mc.t.cols[c].def
@@ -768,7 +777,11 @@ func (mc *machine) defaultReadsUnlisted(sh insertShape, rows [][]cell) bool {
 			refs := map[int]bool{}
 			d.refs(refs)
 			for r := range refs {
-				if !in[r] {
+				p, listed := pos[r]
+				if !listed {
+					return true
+				}
+				if rd := mc.t.cols[r].def; p > pos[c] && cells[r].dflt && rd != nil && rd.op != "const" {
 					return true
 				}
 			}
@@ -1407,9 +1420,11 @@ const findingIgnoreStale = "C19-ignore-null-stale-generated"
 const findingUpdateIgnoreCheck = "C19-update-ignore-check-before-adjust"
 
 // findingDefaultUnlisted: in `INSERT INTO t (cols) VALUES (.., DEFAULT, ..)` the keyword
-// DEFAULT for a column whose default is an expression over a column that is not in the column
-// list is resolved against the listed columns only (planbuilder.buildInsertValues): the
-// statement fails with the internal error "unable to find field with index -1".
+// DEFAULT for a column whose default is an expression over other columns is resolved against
+// the VALUES tuple instead of the destination row (planbuilder.buildInsertValues): when the
+// expression reads a column that is not in the column list the statement fails with the
+// internal error "unable to find field with index -1"; when it reads a column that is listed
+// later and is itself DEFAULT (expression), NULL is stored instead of the declared default.
 const findingDefaultUnlisted = "C19-default-keyword-unlisted-column"
 
 // findingOdkuNoop: INSERT .. ON DUPLICATE KEY UPDATE whose assignments leave the existing row
@@ -1430,7 +1445,7 @@ func (mc *machine) indexedVirtual() bool {
 // signature returns the id of the finding whose signature the deviation matches, or "".
 func (mc *machine) signature(o *outcome, got map[int64][]val) string {
 	t := mc.t
-	if o.dfltUnlisted && o.failed && o.class != mustFail {
+	if o.dfltUnlisted && o.class != mustFail {
 		return findingDefaultUnlisted
 	}
 	if mc.odkuNoop && (o.kind == "index-probe" || o.predVirtual) {
